@@ -284,9 +284,33 @@ func checkC03(c c03Case, _ *kit.Collector) kit.Result {
 			r.str()
 		}
 	}
-	// 4. String is total on success
+	// 4. the value obtained in step 1 is a function of its bytes for good: decoding other input into other
+	// receivers afterwards (on this goroutine) leaves it equal to what a fresh decode of the same bytes gives
+	if ok1 {
+		others := [][]byte{c02PriorFrame, c.Body}
+		for _, p := range c.Prior {
+			others = append(others, p)
+		}
+		for _, p := range others {
+			func() {
+				defer func() { _ = recover() }()
+				newReceiver(c).parse(c, exact(p))
+				if c.Target != "jt808.Decode" {
+					_ = jt808.NewJTMessage().Decode(exact(c02PriorFrame))
+				}
+			}()
+		}
+		r := newReceiver(c)
+		if ok, _ := r.parse(c, exact(c.Body)); ok {
+			if d := diffFull(r.outcome(), r1.outcome()); d != "" {
+				res.Err = kit.Fail("%s: the value decoded first changed while other input was decoded into other receivers: at %s (fresh decode vs. the earlier value)", c.Target, d)
+				// 5. String is total on success (last: some String methods go through Encode, which may normalise the value)
 	if ok1 {
 		r1.str()
+	}
+	return res
+			}
+		}
 	}
 	return res
 }
